@@ -1,6 +1,7 @@
 """C03 - parser instances are isolated; evaluation is re-entrant and thread-independent."""
 import sys
 import threading
+import time
 
 from hypothesis import strategies as st
 
@@ -209,6 +210,9 @@ def nested_key(case):
 
 # ---------------------------------------------------------------- threads under a harness-owned schedule
 
+STALL_S = 8.0
+
+
 class Baton(object):
     def __init__(self, quanta, nthreads=2):
         self.cv = threading.Condition()
@@ -219,6 +223,8 @@ class Baton(object):
         self.done = [False] * nthreads
         self.switches_in_parse = 0
         self.in_parse = [False] * nthreads
+        self.ticks = [0] * nthreads
+        self.stalled = None     # (thread that held the turn inside parse() without executing a line, thread that was suspended inside parse())
 
     def _next(self):
         if self.qi < len(self.quanta):
@@ -228,6 +234,7 @@ class Baton(object):
         return 10 ** 9
 
     def tick(self, me):
+        self.ticks[me] += 1
         self.left -= 1
         if self.left <= 0:
             self.yield_turn(me)
@@ -249,8 +256,20 @@ class Baton(object):
             self.cv.notify_all()
             if finished:
                 return
+            seen, deadline = self.ticks[other], time.monotonic() + STALL_S
             while self.turn != me:
-                self.cv.wait(30)
+                self.cv.wait(1.0)
+                if self.turn == me:
+                    break
+                if self.ticks[other] != seen:
+                    seen, deadline = self.ticks[other], time.monotonic() + STALL_S
+                elif time.monotonic() > deadline and self.in_parse[me] and self.in_parse[other] and not self.done[other]:
+                    # the other thread holds the turn, is inside parse() on its own parser and has not executed one line of the library for STALL_S seconds
+                    # while this thread is suspended inside parse(): it is blocked on this evaluation.  Take the turn back and run to the end.
+                    self.stalled = (other, me)
+                    self.quanta, self.left = [], 10 ** 9
+                    self.turn = me
+                    break
 
     def start(self, me):
         with self.cv:
@@ -299,9 +318,17 @@ def run_threads(formulas, quanta):
         raise RuntimeError('baton scheduler: a thread did not finish (harness error)')
     if errs:
         raise RuntimeError('baton scheduler: %s' % errs[0])
+    if baton.stalled is not None:
+        blocked, holder = baton.stalled
+        raise Violation('under the schedule %r the evaluation on the parser of thread %d did not execute a single line for %d s while the evaluation on the other parser (thread %d) was suspended mid-way, '
+                        'and went on once that one had finished: evaluations on different parsers in different threads are not independent (formulas %r)' % (quanta[:12], blocked, STALL_S, holder, formulas),
+                        'blocked', 'proceeds')
     return out, baton.switches_in_parse
 
 
+# an operand nested 650 levels deep: far beyond what the interpreter's default recursion limit allows the operators (about 490 levels), far below where C-level guards act (about 700).
+# Alone it gives the same outcome on any stack; it tells when an interpreter-wide setting is changed under a running evaluation.
+DEEP = '1+' + '{' * 650 + '1' + '}' * 650 + '+1'
 thread_formula = st.one_of(trees(False, 6).map(gf.render), st.sampled_from(['SUM(1,2,3)*4+A1', '10-3-2', '"a"&"b"&"c"', 'IF(1<2,"x","y")', '{1,2;3,4}', '1+', 'nosuch+1', 'MAX(A1:B2)-MIN(A1:B2)', 'CONCATENATE(v_s,1,2)', 'v_a*v_a-1']))
 thread_case = st.fixed_dictionaries({'f': st.tuples(st.lists(thread_formula, min_size=1, max_size=4), st.lists(thread_formula, min_size=1, max_size=4)).map(list),
                                      'quanta': st.lists(st.one_of(st.integers(1, 60), st.integers(1, 400)), min_size=1, max_size=60)})
@@ -315,10 +342,26 @@ def solo_outcomes(formulas):
 _SW = {}
 
 
+MINIMAL_STALL = {'f': [['1+1'], ['2+2']], 'quanta': [60]}
+
+
 def check_threads(case):
     formulas, quanta = case['f'], case['quanta']
+    if 'stall' in _SW:
+        # this tree has already shown, in this process, that one evaluation blocks the other: no need to wait STALL_S again for every further example
+        raise Violation(_SW['stall'], 'blocked', 'proceeds', case=MINIMAL_STALL)
     want = solo_outcomes(formulas)
-    got, sw = run_threads(formulas, quanta)
+    try:
+        got, sw = run_threads(formulas, quanta)
+    except Violation as v:
+        if v.observed == 'blocked':
+            try:
+                run_threads(MINIMAL_STALL['f'], MINIMAL_STALL['quanta'])
+            except Violation as v2:
+                if v2.observed == 'blocked':
+                    _SW['stall'] = v2.msg
+                    raise Violation(v2.msg, 'blocked', 'proceeds', case=MINIMAL_STALL)
+        raise
     for me in (0, 1):
         if len(got[me]) != len(want[me]):
             raise Violation('thread %d finished %d of %d evaluations' % (me, len(got[me]), len(want[me])), None, None)
@@ -333,6 +376,37 @@ def switches(case):
         return run_threads(case['f'], case['quanta'])[1]
     except Exception:
         return 0
+
+
+# ---------------------------------------------------------------- an interpreter-wide setting changed under a running evaluation
+
+def enum_deep(tier, shard, nshards):
+    # enumerated, not Hypothesis-driven: Hypothesis raises the interpreter's recursion limit while it runs a test body, which would hide what DEEP observes
+    shorts = ['1+1', 'SUM(1,2,3)*4+A1', '"a"&"b"', '1+', 'IF(1<2,"x","y")', '10-3-2']
+    n = 3 if tier == 'quick' else 40
+    for k in range(n):
+        i = shard * n + k
+        q0 = 5 + (i * 37) % 180              # thread 0 is suspended this many lines into its first evaluation
+        q1 = 200 + (i * 911) % 9000          # thread 1 gets this far into the long formula before thread 0 runs to its end
+        yield {'f': [[shorts[i % len(shorts)]] + ([shorts[(i // 2) % len(shorts)]] if i % 3 == 0 else []), [DEEP if i % 2 == 0 else '2*' + DEEP]], 'quanta': [q0, q1, 10 ** 7]}
+
+
+def shallow(r):
+    g = r['result']
+    return (r['error'], type(g).__name__, len(g) if isinstance(g, list) else None)
+
+
+def check_deep(case):
+    formulas, quanta = case['f'], case['quanta']
+    lim = sys.getrecursionlimit()
+    want = solo_outcomes(formulas)
+    got, sw = run_threads(formulas, quanta)
+    for me in (0, 1):
+        for f, g, w in zip(formulas[me], got[me], want[me]):
+            if shallow(g) != shallow(w):
+                raise Violation('thread %d (own parser) evaluated %s to %r under the schedule %r; alone it gives %r (the other thread ran %r); sys.getrecursionlimit() was %d before and is %d now'
+                                % (me, f if len(f) < 60 else '%s...(%d characters: an operand nested 650 deep)' % (f[:12], len(f)), shallow(g), quanta, shallow(w), [x[:40] for x in formulas[1 - me]], lim, sys.getrecursionlimit()),
+                                list(shallow(g)), list(shallow(w)))
 
 
 # ---------------------------------------------------------------- free-running threads (thorough)
@@ -549,6 +623,9 @@ LAWS = [
         nontrivial=lambda c: switches(c) >= 2, key=lambda c: 'thread-interleaving',
         rule='two threads, each with its own parser and 1-4 formulas, run under per-thread line tracing; a generated list of 1-60 quanta (1-400 line events) decides when the baton passes, so exactly one thread runs at a time and the interleaving is a replayable value; '
              'every outcome must equal the solo outcome; non-trivial = at least two switches landing inside an evaluation'),
+    Law('threads_deep_operand', check_deep, enumerate=enum_deep, shards=(16, 16), key=lambda c: 'thread-interleaving',
+        rule='thread 0 evaluates 1-2 short formulas, thread 1 one formula with an operand nested 650 levels deep (beyond what the default recursion limit lets the operators handle, so that alone it gives one and the same outcome on any stack); '
+             'the baton suspends thread 0 inside its first evaluation, lets thread 1 get 200-9200 lines into the long one, then lets thread 0 finish: every formula must give the outcome (error code / kind and length of the result) it gives alone; 48 schedules in quick, 640 in thorough'),
     Law('threads_free', check_free, enumerate=enum_free, shards=(1, 4), key=lambda c: 'thread-interleaving',
         rule='thorough only: 8 free-running threads x distinct parsers x 200 formulas with a 1 microsecond switch interval; every outcome equals the solo outcome'),
     Law('cross_parser_state', check_cross_state, strategy=cross_case, classes=cross_classes, required=('reversed-range', 'absolute-cell', 'both-parsers'), quick=1500, thorough=60000, shards=(8, 16),
@@ -560,6 +637,6 @@ LAWS = [
         rule='1-10 registrations on parser A (set_variable incl. TRUE, set_function incl. SUM, on/once/off for the four events, evaluations): after each, parser B gives the outcomes of an untouched parser for 12 probe formulas and holds none of A\'s variables, functions or listeners'),
 ]
 
-LEVEL_TEXT = 'Hypothesis exploration of re-entrant evaluation (generated interposition points, depth 2, both parsers / same parser, both construction orders) and of thread interleavings under a harness-owned, replayable schedule at Python-line granularity, with solo evaluation as the oracle; free-running thread stress in the thorough tier.'
+LEVEL_TEXT = 'Hypothesis exploration of re-entrant evaluation (generated interposition points, depth 2, both parsers / same parser, both construction orders) and of thread interleavings under a harness-owned, replayable schedule at Python-line granularity, with solo evaluation as the oracle (a blocked evaluation is told from a slow one and reported); an enumerated law with an operand near the interpreter's recursion limit; free-running thread stress in the thorough tier.'
 LEVEL_NOTE = 'Trusted: sys.settrace-based baton scheduler (one thread runs at a time). Not every interleaving is explored; races inside one Python statement or C code are out of reach.'
 TECHNIQUE = 'property-based testing with generated interposition points and harness-owned thread schedules (deterministic interleaving exploration), solo-run oracle'
